@@ -35,7 +35,10 @@ go build ./... || { echo "mutant does not build"; exit 2; }
 if sh -c "$DEMO_CMD" >$L-mut.log 2>&1; then echo "demo on mutated tree: PASS (unexpected)"; else echo "demo on mutated tree: FAIL (expected)"; grep -E "^\s+\S+\.go:[0-9]+:|^--- FAIL|panic:" $L-mut.log | head -4 | cut -c1-200; fi
 # remove the demo, keep the patch
 git clean -fdq
-PKGS=$(git diff --name-only | xargs -n1 dirname | sort -u | sed 's#^#./#' | tr '\n' ' ')
+TOUCHED=$(git diff --name-only | xargs -n1 dirname | sort -u)
+MOD=$(go list -m)
+# the touched packages and every package importing one of them, directly or indirectly
+PKGS=$(for d in $TOUCHED; do echo "$MOD/$d"; go list -f '{{.ImportPath}} {{join .Deps " "}}' ./... 2>/dev/null | grep " $MOD/$d\( \|$\)" | cut -d' ' -f1; done | sort -u | tr '\n' ' ')
 if go test -mod=mod -vet=off -count=1 $PKGS >$L-tests.log 2>&1; then echo "existing tests of touched packages ($PKGS): PASS"; else echo "existing tests of touched packages ($PKGS): FAIL"; grep -E "^(---|FAIL)" $L-tests.log | head -5; fi
 mkdir -p $VC
 rsync -a --exclude .git --exclude /bin --exclude /replays --exclude /evidence --exclude /scratch --exclude /seeded /verif/ $VC/
